@@ -11,7 +11,9 @@
 package fetcher
 
 import (
+	"bytes"
 	"context"
+	"sort"
 
 	"github.com/sourcenetwork/corekv"
 
@@ -19,6 +21,7 @@ import (
 	"github.com/sourcenetwork/defradb/errors"
 	"github.com/sourcenetwork/defradb/internal/connor"
 	"github.com/sourcenetwork/defradb/internal/db/id"
+	"github.com/sourcenetwork/defradb/internal/encoding"
 	"github.com/sourcenetwork/defradb/internal/keys"
 	"github.com/sourcenetwork/defradb/internal/planner/filter"
 	"github.com/sourcenetwork/defradb/internal/planner/mapper"
@@ -239,9 +242,27 @@ type inIndexIterator struct {
 	fieldConditions []fieldFilterCond
 	matchers        []valueMatcher
 	isUnique        bool
+	reverse         bool
 }
 
 var _ indexIterator = (*inIndexIterator)(nil)
+
+func removeDuplicateNormalValues(vals []client.NormalValue) []client.NormalValue {
+	res := make([]client.NormalValue, 0, len(vals))
+	for _, v := range vals {
+		isDuplicate := false
+		for _, r := range res {
+			if r.Equal(v) {
+				isDuplicate = true
+				break
+			}
+		}
+		if !isDuplicate {
+			res = append(res, v)
+		}
+	}
+	return res
+}
 
 // nextIterator initializes the next index iterator based on the current value index.
 func (iter *inIndexIterator) nextIterator() (bool, error) {
@@ -286,7 +307,8 @@ func (iter *inIndexIterator) createIteratorForNextValue() error {
 			Descending: iter.fetcher.indexDesc.Fields[0].Descending,
 		}}
 
-		iter.indexIterator = iter.fetcher.newPrefixBaseMatchIterator(indexKey, iter.matchers, iter.fetcher.execInfo)
+		iter.indexIterator = iter.fetcher.newPrefixBaseMatchIterator(indexKey, iter.matchers, iter.fetcher.execInfo).
+			Reverse(iter.reverse)
 	}
 
 	return nil
@@ -458,6 +480,20 @@ func (f *indexFetcher) newInIndexIterator(
 	if err != nil {
 		return nil, NewErrInvalidInOperatorValue(err)
 	}
+	// every value is fetched on its own: a repeated value must not be fetched twice, and when the
+	// result is ordered by the index the values have to be visited in index order
+	inValues = removeDuplicateNormalValues(inValues)
+	ordered, reverse := CanBeOrderedByIndex(f.ordering, f.indexDesc, f.mapping)
+	if ordered {
+		desc := f.indexDesc.Fields[0].Descending
+		sort.SliceStable(inValues, func(i, j int) bool {
+			c := bytes.Compare(encoding.EncodeFieldValue(nil, inValues[i], desc), encoding.EncodeFieldValue(nil, inValues[j], desc))
+			if reverse {
+				return c > 0
+			}
+			return c < 0
+		})
+	}
 
 	// iterators for _in filter already iterate over keys with first field value
 	// matching the filter value, so we can skip the first matcher
@@ -468,6 +504,7 @@ func (f *indexFetcher) newInIndexIterator(
 	isUnique := isUniqueFetchByFullKey(&f.indexDesc, fieldConditions)
 
 	inIter := &inIndexIterator{
+		reverse:         ordered && reverse,
 		inValues:        inValues,
 		fetcher:         f,
 		fieldConditions: fieldConditions,
